@@ -850,6 +850,83 @@ def big_cases(r, thorough):
     return out
 
 
+# ----------------------------------------------------------------------------- arrays at the protocol maximum (made inside the harness)
+MAX_ARRAY = 1 << 26
+
+
+def giant_shapes(r):
+    """[(class, shape)]: arrays whose value is made inside the harness from a descriptor (harness/src/bin/wire.rs, giant()): `ay n`
+    (byte i = i mod 251), `at n` (element i = i), `as count len lastlen` (string j = the letter a + j mod 26 repeated). Content of
+    exactly 2^26 bytes (the protocol maximum: accepted), the smallest content above it (refused), and 16 MiB < content < 64 MiB (the top
+    byte of the length field is not zero; strings of 1 MiB keep the element count small for the dynamic API)."""
+    mib = 1 << 20
+    k = r.choice([17, 33, 50])
+    return [("array=2^26", ("ay", MAX_ARRAY)), ("array>2^26", ("ay", MAX_ARRAY + 1)),
+            ("array=2^26", ("at", MAX_ARRAY // 8)), ("array>2^26", ("at", MAX_ARRAY // 8 + 1)),
+            # 64 strings: 4 + (2^20 - 8) + 1 bytes and 3 of padding each, the last one 4 + (2^20 - 5) + 1 = 2^20: 2^26 in all
+            ("array=2^26", ("as", 64, mib - 8, mib - 5)), ("array>2^26", ("as", 64, mib - 8, mib - 4)),
+            ("array>=16MiB", ("at", 2 * mib + r.choice([1, 2, 1000]))), ("array>=16MiB", ("as", k, mib - 8, r.choice([mib - 8, 5, 0])))]
+
+
+_giant_cache = {}
+
+
+def giant_spec(shape, be):
+    """(content bytes, length of the encoding at offset 0, crc32 of the encoding) by a plain encoder written from the D-Bus
+    specification: u32 length, padding to the element alignment, the elements (strings: u32 length, text, NUL, aligned to 4)"""
+    import zlib
+    key = (shape, be)
+    if key in _giant_cache:
+        return _giant_cache[key]
+    order = "big" if be else "little"
+    if shape[0] == "ay":
+        pat = bytes(range(251))
+        content = (pat * (shape[1] // 251 + 1))[:shape[1]]
+        head = b""
+    elif shape[0] == "at":
+        import array
+        import sys
+        arr = array.array("Q", range(shape[1]))
+        assert arr.itemsize == 8
+        if (sys.byteorder == "big") != be:
+            arr.byteswap()
+        content = arr.tobytes()
+        head = bytes(4)
+    else:
+        _, count, ln, last = shape
+        parts = []
+        pos = 4
+        for j in range(count):
+            n = last if j + 1 == count else ln
+            padn = -pos % 4
+            piece = bytes(padn) + n.to_bytes(4, order) + bytes([97 + j % 26]) * n + b"\x00"
+            parts.append(piece)
+            pos += len(piece)
+        content = b"".join(parts)
+        head = b""
+    enc = len(content).to_bytes(4, order) + head + content
+    out = (len(content), len(enc), "%08x" % (zlib.crc32(enc) & 0xFFFFFFFF))
+    _giant_cache[key] = out
+    return out
+
+
+def giant_desc(shape):
+    return " ".join(str(x) for x in shape)
+
+
+def giant_lines(r, op):
+    """[(class, shape, be, what runs, line)] for op XM / XR (typed push_param of &[u8] / &[u64] / &[&str] - the memcpy path for ay and
+    native-order at, element by element otherwise - and push_old_param of a Param array of strings) or XD (validate_raw, typed decoder,
+    dynamic decoder), every shape in both byte orders; the Param API only for arrays of strings (2^23 Param values would need gigabytes)"""
+    out = []
+    for cls, shape in giant_shapes(r):
+        for bo in ("le", "be"):
+            apis = ["typed"] + (["param"] if shape[0] == "as" else []) if op != "XD" else ["vr", "ut"] + (["up"] if shape[0] == "as" else [])
+            for api in apis:
+                out.append((cls, shape, bo == "be", api, "%s %s %s %s" % (op, api, bo, giant_desc(shape))))
+    return out
+
+
 FIXED_WIDTH = "ynqiuxtd"
 
 
